@@ -44,6 +44,32 @@ class IV:
         return "IV(%s:%s)" % (self.t, self.ty)
 
 
+def int_to_float_bits(x, fty):
+    """bit pattern of the integer x converted to f64 / f32 like Rust's `as` (round to nearest, ties to even; overflow to infinity)"""
+    fb, eb, bias = (52, 11, 1023) if fty == "f64" else (23, 8, 127)
+    sign = 1 if x < 0 else 0
+    m = abs(x)
+    if m == 0:
+        return sign << (fb + eb)
+    n = m.bit_length()
+    if n <= fb + 1:
+        mant = m << (fb + 1 - n)
+    else:
+        sh = n - (fb + 1)
+        mant = m >> sh
+        rem = m & ((1 << sh) - 1)
+        half = 1 << (sh - 1)
+        if rem > half or (rem == half and (mant & 1)):
+            mant += 1
+            if mant == 1 << (fb + 1):
+                mant >>= 1
+                n += 1
+    e = n - 1 + bias
+    if e >= (1 << eb) - 1:
+        return (sign << (fb + eb)) | (((1 << eb) - 1) << fb)
+    return (sign << (fb + eb)) | (e << fb) | (mant & ((1 << fb) - 1))
+
+
 class FV:
     """float value carried as bit pattern (IV of u64/u32) or as an opaque cast"""
     __slots__ = ("bits", "ty", "src")
@@ -1127,6 +1153,16 @@ class Executor:
         if isinstance(a, EnumV) and isinstance(b, EnumV) and op in ("Eq", "Ne"):
             r = (a.variant == b.variant)
             return r if op == "Eq" else not r
+        if isinstance(a, FV) and isinstance(b, FV) and op in ("Eq", "Ne", "Lt", "Le", "Gt", "Ge") and a.bits is not None and b.bits is not None:
+            # IEEE comparison on the bit patterns: NaN compares false (true for Ne); otherwise order of the sign-magnitude keys, -0 == +0
+            from . import builtins as _BI
+            _BI._use("float comparison on bit patterns (sign-magnitude key, NaN unordered)")
+            ka, na = self.float_key(st, a)
+            kb, nb = self.float_key(st, b)
+            nan = T.bor(na, nb)
+            if op == "Ne":
+                return T.bor(nan, T.cmp("Ne", ka, kb))
+            return T.band(T.bnot(nan), T.cmp(op, ka, kb))
         if not (isinstance(a, IV) and isinstance(b, IV)):
             raise Unsupported("binop %s on %r, %r" % (op, a, b))
         ty = a.ty
@@ -1172,6 +1208,15 @@ class Executor:
         if op in ("BitAnd", "BitOr", "BitXor"):
             return self.bitop(st, op, a, b)
         raise Unsupported("binop %s" % op)
+
+    def float_key(self, st, f):
+        """(key, is_nan): key orders all non-NaN floats of the type like their values (sign-magnitude, both zeros map to 0)"""
+        fb, eb = (52, 11) if f.ty == "f64" else (23, 8)
+        w = fb + eb
+        sgn, mag = self.divmod_pow2(st, f.bits, w)
+        nan = T.lt(((1 << eb) - 1) << fb, mag)
+        neg = T.eq(sgn, 1)
+        return T.ite(neg, T.neg(mag), mag), nan
 
     def bitop(self, st, op, a, b):
         ty = a.ty
@@ -1274,7 +1319,29 @@ class Executor:
                 return IV(v.t, ty, tz=v.tz, ub=v.ub)
             return IV(self.wrap(st, v.t, ty), ty)
         if kind.startswith("IntToFloat"):
+            if is_conc(v.t):
+                return FV(int_to_float_bits(int(v.t), ty), ty)
             return FV(None, ty, ("int_to_float", v.t, v.ty))
+        if kind.startswith("FloatToInt") and isinstance(v, FV) and v.bits is not None and ty in INT_TYPES:
+            # `f as iN/uN`: truncation towards zero, saturating at the target's bounds, NaN -> 0 (exponent field must be concrete)
+            from . import builtins as _BI
+            _BI._use("float-to-int `as` cast on the bit pattern (truncating, saturating, NaN -> 0; concrete exponent field)")
+            fb, eb, bias = (52, 11, 1023) if v.ty == "f64" else (23, 8, 127)
+            q, frac = self.divmod_pow2(st, v.bits, fb)
+            sgn, expo = self.divmod_pow2(st, q, eb)
+            e = self.conc(st, expo, "float exponent field")
+            neg = T.eq(sgn, 1)
+            lo, hi = ty_range(ty)
+            if e == (1 << eb) - 1:
+                return IV(T.ite(T.eq(frac, 0), T.ite(neg, lo, hi), 0), ty)
+            mant = frac if e == 0 else T.add(frac, 1 << fb)
+            sh = max(e, 1) - bias - fb
+            if sh >= 0:
+                mag = T.mul(mant, 1 << sh)
+            else:
+                mag = self.divmod_pow2(st, mant, -sh)[0] if -sh <= fb + 1 else 0
+            val = T.ite(neg, T.neg(mag), mag)
+            return IV(T.ite(T.lt(val, lo), lo, T.ite(T.lt(hi, val), hi, val)), ty)
         if kind.startswith("PointerCoercion") or kind in ("PtrToPtr", "Transmute", "PointerExposeProvenance"):
             if isinstance(v, PtrV):
                 m = re.match(r"^\*(?:const|mut) (\w+)$", ty)
